@@ -1,6 +1,10 @@
 package main
 
-import "gopkg.in/typ.v4/slices"
+import (
+	"math"
+
+	"gopkg.in/typ.v4/slices"
+)
 
 // C12: splicing helpers. A slice argument "<list> <extracap>" is backing[:len:len+extracap] of a backing array of
 // len+extracap+2 cells whose cells beyond len hold the sentinel -7.
@@ -16,7 +20,7 @@ func mkSlice(vals []int, extra int) (s []int, backing []int) {
 	for i := len(vals); i < len(backing); i++ {
 		backing[i] = sentinel
 	}
-	return backing[:len(vals):len(vals)+extra], backing
+	return backing[: len(vals) : len(vals)+extra], backing
 }
 
 // describe renders "<contents> <tail> <same/new>" for a result slice relative to the original backing array.
@@ -60,6 +64,73 @@ func (c12) step(t []string) string {
 		s := parseInts(t[1])
 		slices.Fill(s, atoi(t[2]))
 		return fmtInts(s)
+	case "fillz":
+		// type instantiations other than int: <n> <kind>; the result is, per element, 1 when the element IS the value filled in
+		// kind 0: []float64 filled with -0.0 (sign observed)   1: [][]int filled with [7] (not comparable)   2: Repeat(-0.0, n)
+		// kind 3: []string filled with ""  over non-empty strings   4: struct{a float64; b []int}   5: float32 -0
+		need(t, 3)
+		n, out := atoi(t[1]), []int{}
+		b2i := func(b bool) int {
+			if b {
+				return 1
+			}
+			return 0
+		}
+		switch atoi(t[2]) {
+		case 0:
+			fs := make([]float64, n)
+			for i := range fs {
+				fs[i] = float64(i + 1)
+			}
+			slices.Fill(fs, math.Copysign(0, -1))
+			for _, f := range fs {
+				out = append(out, b2i(f == 0 && math.Signbit(f)))
+			}
+		case 1:
+			ss := make([][]int, n)
+			slices.Fill(ss, []int{7})
+			for _, e := range ss {
+				out = append(out, b2i(len(e) == 1 && e[0] == 7))
+			}
+		case 2:
+			for _, f := range slices.Repeat(math.Copysign(0, -1), n) {
+				out = append(out, b2i(f == 0 && math.Signbit(f)))
+			}
+		case 3:
+			ss := make([]string, n)
+			for i := range ss {
+				ss[i] = "x"
+			}
+			slices.Fill(ss, "")
+			for _, e := range ss {
+				out = append(out, b2i(e == ""))
+			}
+		case 4:
+			type rec struct {
+				a float64
+				b []int
+			}
+			rs := make([]rec, n)
+			for i := range rs {
+				rs[i] = rec{1, []int{1}}
+			}
+			slices.Fill(rs, rec{a: math.Copysign(0, -1)})
+			for _, e := range rs {
+				out = append(out, b2i(e.a == 0 && math.Signbit(e.a) && e.b == nil))
+			}
+		case 5:
+			fs := make([]float32, n)
+			for i := range fs {
+				fs[i] = 1
+			}
+			slices.Fill(fs, float32(math.Copysign(0, -1)))
+			for _, f := range fs {
+				out = append(out, b2i(f == 0 && math.Signbit(float64(f))))
+			}
+		default:
+			return bad()
+		}
+		return fmtInts(out)
 	case "repeat":
 		need(t, 3)
 		return fmtInts(slices.Repeat(atoi(t[1]), atoi(t[2])))
